@@ -497,7 +497,16 @@ func runCase(t *testing.T, r *vh.Run, worldNo int, ops []opSpec, tags map[string
 
 	// initial world (untagged calls: not traced)
 	existing := ""
+	// worlds 5 and 6 are worlds 2 and 4 whose nodes are down (no live status key) / bypassed:
+	// such nodes still belong to their pod
+	base := worldNo
 	switch worldNo {
+	case 5:
+		base = 2
+	case 6:
+		base = 4
+	}
+	switch base {
 	case 1:
 		must(t, w.AddPod("p"))
 	case 2, 3:
@@ -509,13 +518,31 @@ func runCase(t *testing.T, r *vh.Run, worldNo int, ops []opSpec, tags map[string
 		must(t, w.AddNode("n", "p", 8, 1<<30))
 		must(t, w.AddNode("m", "q", 8, 1<<30))
 	}
-	if worldNo >= 3 {
+	if base >= 3 {
 		res := runOp(w, "", opSpec{Kind: "create", A: "n"})
 		if !res.ok {
 			t.Fatalf("setup create failed")
 		}
 		existing = res.id
 		w.Quiesce()
+	}
+	down := func(name string) {
+		node, err := w.RawStore.GetNode(w.Ctx, name)
+		must(t, err)
+		must(t, w.RawStore.SetNodeStatus(w.Ctx, node, -1))
+	}
+	bypass := func(name string) {
+		node, err := w.RawStore.GetNode(w.Ctx, name)
+		must(t, err)
+		node.Bypass = true
+		must(t, w.RawStore.UpdateNodes(w.Ctx, node))
+	}
+	switch worldNo {
+	case 5:
+		down("n")
+	case 6:
+		bypass("n")
+		down("m")
 	}
 	for i := range ops {
 		if ops[i].Kind == "remove-wl" && ops[i].A == "@w" {
@@ -702,7 +729,11 @@ func TestC22(t *testing.T) {
 	runCase(t, r, 2, []opSpec{{Kind: "remove-node", A: "n", Fault: 3, Pause: 64}}, map[string]any{"corpus": "removenode-plugin-fault"})
 	runCase(t, r, 2, []opSpec{{Kind: "remove-node", A: "n", Fault: nf, Pause: 1}, {Kind: "remove-node", A: "n", Fault: nf, Pause: 64},
 		{Kind: "add-node", A: "n", B: "p", Fault: nf, Pause: 1}}, map[string]any{"corpus": "stale-removenode"})
-	emitted := 4
+	// pods whose nodes are all down / bypassed still have nodes: RemovePod must be refused
+	runCase(t, r, 5, []opSpec{{Kind: "remove-pod", A: "p", Fault: nf, Pause: 64}}, map[string]any{"corpus": "removepod-down-nodes"})
+	runCase(t, r, 6, []opSpec{{Kind: "remove-pod", A: "p", Fault: nf, Pause: 64}}, map[string]any{"corpus": "removepod-down-nodes"})
+	runCase(t, r, 6, []opSpec{{Kind: "remove-pod", A: "q", Fault: nf, Pause: 64}, {Kind: "remove-node", A: "m", Fault: nf, Pause: 64}}, map[string]any{"corpus": "removepod-down-nodes"})
+	emitted := 7
 	gen := func() opSpec {
 		switch rng.Intn(8) {
 		case 0:
@@ -719,7 +750,7 @@ func TestC22(t *testing.T) {
 		return opSpec{Kind: "remove-wl", A: "@w"}
 	}
 	for tries := 0; emitted < n && tries < 3*n; tries++ {
-		world := rng.Intn(5)
+		world := rng.Intn(7)
 		k := 1 + rng.Intn(2)
 		if rng.Intn(6) == 0 {
 			k = 3
@@ -743,5 +774,5 @@ func TestC22(t *testing.T) {
 			emitted++
 		}
 	}
-	r.Finish("one case per run of 1-3 operations (add-pod, remove-pod, add-node, remove-node, create of one instance, remove-workload over pods p,q / nodes n,m) on a real Calcium with embedded etcd from one of five initial worlds: phase 1 pauses operation i before its k_i-th relevant call, phase 2 lets the operations finish in order; optional single injected failure; corpus = the four refutation witnesses; schedules in which an operation would wait for a lock of a paused one are skipped; non-trivial = two or more operations or an injected failure")
+	r.Finish("one case per run of 1-3 operations (add-pod, remove-pod, add-node, remove-node, create of one instance, remove-workload over pods p,q / nodes n,m) on a real Calcium with embedded etcd from one of seven initial worlds (two of them with down / bypassed nodes): phase 1 pauses operation i before its k_i-th relevant call, phase 2 lets the operations finish in order; optional single injected failure; corpus = the four refutation witnesses; schedules in which an operation would wait for a lock of a paused one are skipped; non-trivial = two or more operations or an injected failure")
 }
